@@ -33,8 +33,13 @@ def _st(p):
     return st
 
 
-def run():
-    rep = Report(
+def add_transform_obligations(rep, ctx):
+    """the temp-file obligations of the transform machinery; also part of C01 (colliding temp copies mix up file contents)"""
+    return run(rep, ctx, True)
+
+
+def run(rep_in=None, ctx_in=None, only_transform=False):
+    rep = rep_in or Report(
         "C07", "other",
         "Bounded symbolic execution (mirsym/z3): Transform::make_args with its argument closure invoked for the variable "
         "sequences [], [IN], [OUT], [IN, OUT] (copy / in_place symbolic), composed with the Drop impls of Input and Output: the "
@@ -45,7 +50,7 @@ def run():
         assumptions=["parse_command calls its closure once per $VAR occurrence, in order (nom parser outside the encoding)",
                      "tmp_dir is outside the scanned tree (std::env::temp_dir())"],
         outside=["what the user's transform program does", "atime semantics", "sled's own files", "the bodies of log_script's threads"])
-    ctx = oblig.Ctx()
+    ctx = ctx_in or oblig.Ctx()
     prog = ctx.lib
 
     def finish(o, scenario=None):
@@ -190,6 +195,9 @@ def run():
         o = Obligation("transform copy", "E2 mirsym/z3")
         o.verdict, o.detail = "inconclusive", str(ex)
         rep.add(o)
+
+    if only_transform:
+        return rep
 
     # ---------------------------------------------------------------- O2 read-only open
     try:
